@@ -220,6 +220,17 @@ def discharge(site):
             if ok_end and ok_start:
                 return "range bounds established against this container's len()"
         elif pi.k != "agg":
+            # constant index c: need len >= c + 1
+            if pi.k == "const" and isinstance(pi.v, int) and known_ge(body, bb, lenc, E("const", v=pi.v + 1, ty="usize")):
+                return "constant index below an established minimum length"
+            # index = len(container) / c (c >= 2) on a non-empty container
+            if pi.k == "bin" and pi.op == "Div":
+                pa_, pb_ = peel(pi.a, through_try=False), peel(pi.b, through_try=False)
+                if pa_.k == "call" and (pa_.q or "").split("::")[-1] == "len" and pa_.args and pb_.k == "const" and (pb_.v or 0) >= 2:
+                    from ..common import _container_root
+                    if _container_root(pa_.args[0]) is not None and _container_root(pa_.args[0]) == _container_root(ec) \
+                            and known_ge(body, bb, lenc, E("const", v=1, ty="usize")):
+                        return "index = len()/c of a container established non-empty"
             # scalar index: need index < len
             for edge, f in facts_at_e(body, bb):
                 if f[0] in ("Lt", "Gt"):
